@@ -24,6 +24,10 @@ def obligations(tier):
             for ml in mls:
                 obs.append(Ob("%s%s-m%d" % (nm, "-ph" if ph else "", ml), "C06/ed25519.c", units=UNITS, stubs=STUBS,
                               defs={"PART": part, "PH": ph, "MLEN": ml}, unwind=240, timeout=900, family="ed25519-" + nm,
+                              # verification: a counterexample is an abstract-group scenario (e.g. "R of small order that
+                              # satisfies the equation"); reproducing it natively needs crafted torsion points, so the
+                              # replay is model-level (re-decides the obligation) -- see DESIGN.md section 1, E3
+                              replay="model" if part == 1 else "native",
                               tier="quick" if ml in (0, 1, 17, 40) else "thorough",
                               desc={0: "seed_keypair / sign (plain, ph) == RFC 8032 data flow; deterministic; combined form; sk_to_curve25519",
                                     1: "verify_detached accepts <=> all strictness checks and the cofactored equation on the right bytes",
